@@ -422,3 +422,37 @@ c.setup = _chain_setup
 c.models = MODELS + [(_Prep.apply, _chain_apply), (ObjTraits.__dict__["runtime_variable"].__func__ if isinstance(ObjTraits.__dict__["runtime_variable"], staticmethod) else ObjTraits.__dict__["runtime_variable"], lambda it, v: sym.is_sym(v))]
 c.interp_flags = {"class_call_models": {OUT.Value: lambda it, args, kw: SObj(_Expr, f_result=args[0], f_bound=list(args[1])), OUT.All: _mk_all}}
 con.cases.append(c)
+
+
+# chained comparison of compile-time constants (C10: "chained comparisons ... evaluate to exactly the values CPython produces"):
+# every link compares ADJACENT operands
+CONST_CHAIN_NODE = ast.parse("a < m < b", mode="eval").body
+CONST_CHAINS = [(1, 5, 3), (1, 2, 3), (5, 1, 3), (1, 1, 3), (2, 3, 3), (3, 2, 1), (1, 3, 2)]
+
+
+def const_chain_spec(vals):
+    a, m, b = vals
+    want = a < m < b
+
+    def spec(sx, self, inp):
+        def holds(res):
+            return isinstance(res, SObj) and res.kind is _Expr and res.fields.get("f_result") is want
+
+        return C.Pred(holds, f"{a} < {m} < {b} == {want}")
+
+    return spec
+
+
+for vals in CONST_CHAINS:
+    c = Case(f"compare-chain:constants {vals[0]}<{vals[1]}<{vals[2]}", [Built([], lambda env: SObj(_Prep, _last_apply_inp=None), lambda a: "<self>", lambda a: None),
+                                                                    Built([], lambda env: CONST_CHAIN_NODE, lambda a: "<a < m < b>", lambda a: None)], const_chain_spec(vals))
+    c.native = False
+
+    def _const_setup(it, ctx, args, env, vals=vals):
+        it.chain_operands = [SObj(_Expr, f_result=SObj(_Val, f_kind="B", f_v=v), f_bound=[]) for v in vals]
+
+    c.setup = _const_setup
+    c.models = MODELS + [(_Prep.apply, _chain_apply), (ObjTraits.__dict__["runtime_variable"].__func__ if isinstance(ObjTraits.__dict__["runtime_variable"], staticmethod) else ObjTraits.__dict__["runtime_variable"], lambda it, v: sym.is_sym(v)),
+                         (ObjTraits.__dict__["get"].__func__ if isinstance(ObjTraits.__dict__["get"], staticmethod) else ObjTraits.__dict__["get"], lambda it, v: v)]
+    c.interp_flags = {"class_call_models": {OUT.Value: lambda it, args, kw: SObj(_Expr, f_result=args[0], f_bound=list(args[1])), OUT.All: _mk_all}}
+    con.cases.append(c)
